@@ -2,13 +2,24 @@
 property's own oracle (monitor) to the real outputs, and compares every real evaluation with the extracted
 Coq model (ocaml/c12/driver.exe).
 
+One process = one HISTORY of NsHandler objects: handlers of all bundled sites are created (and used once) in an order that
+depends on the shard (shard 2k+1 uses the reverse order of shard 2k, so every pair of sites is set up in both orders in
+every run); later on further handlers of random sites are created in four ways (NsHandler(get_siteinfo(l)), NsHandler(deep
+copy), get_nshandler_for_lang(l), pickle round trip of a living handler) and every evaluation picks one of the living
+handlers of the group's site.  The monitor judges each handler against what the site's OWN siteinfo JSON defines
+(vt/harness/c12_ref.py, loaded from the files, never from the handler).
+
 usage: python -m vt.harness.c12_impl run <seed> <shard> <ngroups> <model_exe> [<corpus.json>]
-       python -m vt.harness.c12_impl replay          (stdin: {"lang","dns","title"} JSON; prints the oracle's verdict)
+       python -m vt.harness.c12_impl replay      stdin: {"lang","dns","title"[,"history","inst","expect"]} -> oracle verdict
+       python -m vt.harness.c12_impl minimise    stdin: same object -> smallest history / title that still fails
 stdout: one JSON object (summary, monitor hits, disagreements, samples).
 """
+import copy
 import hashlib
 import json
 import logging
+import os
+import pickle
 import random
 import subprocess
 import sys
@@ -17,28 +28,48 @@ logging.disable(logging.CRITICAL)
 
 from mwlib.core import nshandling  # noqa: E402   (snapshot, via PYTHONPATH)
 from mwlib.network import siteinfo  # noqa: E402
-from vt.harness import c12_gen  # noqa: E402
+from vt.harness import c12_gen, c12_ref  # noqa: E402
 
-LANGS = ["de", "en", "es", "fr", "it", "ja", "nl", "no", "pl", "pt", "simple", "sv"]
 DNS = [0, 6, 10, 14]
+HOWS = ["new", "copy", "for_lang", "pickle"]
+WARMUP = "Talk:x"
 
 
-def load():
-    import glob
-    import os
-    d = os.path.join(os.path.dirname(siteinfo.__file__), "known_sites")
-    langs = sorted(os.path.basename(f)[len("siteinfo-"):-5] for f in glob.glob(os.path.join(d, "siteinfo-*.json")))
-    handlers, sites = {}, {}
-    for lang in langs:
-        si = siteinfo.get_siteinfo(lang)
-        h = nshandling.NsHandler(si)
-        handlers[lang] = h
-        sites[lang] = {
-            "namespaces": [(v["id"], v["*"], v.get("canonical")) for v in h.siteinfo["namespaces"].values()],
-            "aliases": [(a["id"], a["*"]) for a in h.siteinfo.get("namespacealiases", [])],
-            "capitalize": bool(h.capitalize),
-        }
-    return handlers, sites
+def ref_sites():
+    return c12_ref.load_sites(os.path.join(os.path.dirname(siteinfo.__file__), "known_sites"))
+
+
+class World:
+    """the NsHandler objects of this process, in creation order"""
+
+    def __init__(self):
+        self.events = []     # [lang, how, src index | None]
+        self.insts = []      # (lang, handler)
+        self.by_lang = {}
+
+    def create(self, lang, how, src=None):
+        if how == "new":
+            h = nshandling.NsHandler(siteinfo.get_siteinfo(lang))
+        elif how == "copy":
+            h = nshandling.NsHandler(copy.deepcopy(siteinfo.get_siteinfo(lang)))
+        elif how == "for_lang":
+            h = nshandling.get_nshandler_for_lang(lang)
+        elif how == "pickle":
+            h = pickle.loads(pickle.dumps(self.insts[src][1]))
+        else:
+            raise ValueError(how)
+        self.events.append([lang, how, src])
+        self.insts.append((lang, h))
+        self.by_lang.setdefault(lang, []).append(len(self.insts) - 1)
+        try:
+            h.splitname(WARMUP)      # first use
+        except Exception:            # noqa: BLE001  (judged by the monitor on the generated titles)
+            pass
+        return len(self.insts) - 1
+
+    def rebuild(self, events):
+        for lang, how, src in events:
+            self.create(lang, how, src)
 
 
 def real_split(h, title, dns):
@@ -58,24 +89,38 @@ def uncps(f):
     return "".join(chr(int(x)) for x in f.split()) if f else ""
 
 
-def oracle(h, lang, dns, title, res, expect=None):
-    """The property's oracle on ONE real evaluation.  Returns list of (kind, detail, extra evaluations)."""
+def oracle(h, site, lang, dns, title, res, expect=None):
+    """The property's oracle on ONE real evaluation; `site` = the reference data of the site (c12_ref.load_sites).
+    Returns (list of (kind, detail), extra evaluations made)."""
     probs = []
     evals = []
+    want = c12_ref.canon(site, title, dns)
     if res[0] == "EXC":
+        if res[1] == "KeyError" and dns not in site["star"]:
+            return [], evals
         return [("exception", "splitname raised %s: %s" % (res[1], res[2]))], evals
     ns, partial, full = res
-    nss = h.siteinfo["namespaces"]
-    if str(ns) not in nss or nss[str(ns)]["id"] != ns:
-        return [("shape", "reported namespace %r is not defined by the site" % (ns,))], evals
-    local = nss[str(ns)]["*"]
+    if want is not None and res != want:
+        probs.append(("site-definition", "splitname(%r, %d) = %r, the site's own siteinfo defines %r" % (title, dns, res, want)))
+    if ns not in site["star"]:
+        probs.append(("shape", "reported namespace %r is not defined by the site" % (ns,)))
+        return probs, evals
+    local = site["star"][ns]
     want_full = (local + ":" if local else "") + partial
     if full != want_full:
         probs.append(("shape", "full name %r is not local name + ':' + remainder %r" % (full, want_full)))
-    if h.capitalize and partial[0:1].upper() + partial[1:] != partial:
+    if site["capitalize"] and partial[0:1].upper() + partial[1:] != partial:
         probs.append(("shape", "remainder %r is not first-letter capitalised" % (partial,)))
     if expect is not None and [ns, partial, full] != expect:
         probs.append(("spelling", "normalises to %r, the canonical form of this spelling group is %r" % (res, expect)))
+    # spelling invariance on the title itself: '_' for ' ', runs folded, surroundings stripped
+    for what, t2 in c12_ref.equivalent_spellings(title):
+        r2 = real_split(h, t2, dns)
+        evals.append((lang, dns, t2, r2))
+        if r2 != res:
+            probs.append(("spelling-invariance", "splitname(%r, %d) = %r but the same title with %s, %r, gives %r"
+                          % (title, dns, res, what, t2, r2)))
+            break
     # idempotence: the canonical full name normalises to itself (main-namespace names only under defaultns 0:
     # an unprefixed name is by definition read in the default namespace)
     for d2 in (DNS if local else [0]):
@@ -88,10 +133,23 @@ def oracle(h, lang, dns, title, res, expect=None):
     return probs, evals
 
 
+def site_order(seed, shard, langs):
+    """creation order of the first handler of every site: a permutation per shard pair, reversed in the odd shard"""
+    order = list(langs)
+    random.Random(seed * 1000003 + (shard // 2) * 7907 + 5).shuffle(order)
+    if shard % 2:
+        order.reverse()
+    return order
+
+
 def run(seed, shard, ngroups, exe, corpus):
-    handlers, sites = load()
+    sites = ref_sites()
+    langs = sorted(sites)
     rng = random.Random(seed * 7919 + shard * 104729 + 17)
     gen = c12_gen.Gen(rng, sites)
+    world = World()
+    for lang in site_order(seed, shard, langs):
+        world.create(lang, rng.choice(HOWS[:3]))
     groups = []
     if corpus and shard == 0:
         for c in json.load(open(corpus)):
@@ -100,50 +158,64 @@ def run(seed, shard, ngroups, exe, corpus):
         groups.append(gen.group())
     evals = []       # (lang, dns, title, real result)
     hits = []
-    seen_titles = set()
     digests = set()
     n_eval = 0
-    dist = {"ns": 0, "plain": 0, "wild": 0, "corpus": 0, "spellings": 0, "reeval": 0, "exc": 0, "found_ns": 0, "main_ns": 0,
-            "len_sum": 0, "non_bmp": 0, "with_marks": 0, "lead_colon": 0}
+    dist = {"ns": 0, "plain": 0, "wild": 0, "foreign": 0, "corpus": 0, "spellings": 0, "reeval": 0, "exc": 0, "found_ns": 0, "main_ns": 0,
+            "len_sum": 0, "non_bmp": 0, "with_marks": 0, "lead_colon": 0, "judged_by_site_reference": 0, "space_runs_ge3": 0,
+            "handlers_created": 0, "handlers_by_pickle": 0}
     samples = []
     for g in groups:
-        h = handlers[g["lang"]]
         dist[g["kind"]] += 1
-        results = []
-        for t in g["spellings"]:
-            res = real_split(h, t, g["dns"])
-            results.append(res)
-            evals.append((g["lang"], g["dns"], t, res))
-            n_eval += 1
-            dist["spellings"] += 1
-            dist["len_sum"] += len(t)
-            if any(ord(c) > 0xFFFF for c in t):
-                dist["non_bmp"] += 1
-            if "‎" in t or "‏" in t:
-                dist["with_marks"] += 1
-            if t.lstrip(" _\t\n‎‏").startswith(":"):
-                dist["lead_colon"] += 1
-            if res[0] == "EXC":
-                dist["exc"] += 1
-            elif res[0] == 0:
-                dist["main_ns"] += 1
-            else:
-                dist["found_ns"] += 1
-            key = (g["lang"], g["dns"], t)
-            if c12_gen.nontrivial(t):
-                digests.add(hashlib.blake2b(repr(key).encode("utf8", "replace"), digest_size=8).hexdigest())
-            probs, extra = oracle(h, g["lang"], g["dns"], t, res, g["expect"])
-            for e in extra:
-                evals.append(e)
-                dist["reeval"] += 1
-            for kind, detail in probs:
-                if len(hits) < 40:
-                    hits.append({"kind": kind, "detail": detail, "lang": g["lang"], "dns": g["dns"], "title": t,
-                                 "group": g["kind"], "expect": g["expect"]})
-        if g["expect"] is None and g["kind"] != "wild" and len(results) > 1:
-            pass
-        if len(samples) < 4 and g["kind"] in ("ns", "plain") and any(not c.isascii() for c in g["spellings"][0]):
-            samples.append({"site": g["lang"], "defaultns": g["dns"], "spellings": g["spellings"][:3], "result": results[0]})
+        if rng.random() < 0.04:
+            lg = rng.choice(langs)
+            how = rng.choice(HOWS)
+            world.create(lg, how, rng.choice(world.by_lang[lg]) if how == "pickle" else None)
+        for lang in g.get("langs") or [g["lang"]]:
+            site = sites[lang]
+            results = []
+            for t in g["spellings"]:
+                k = rng.choice(world.by_lang[lang])
+                h = world.insts[k][1]
+                nev = len(world.events)
+                res = real_split(h, t, g["dns"])
+                results.append(res)
+                evals.append((lang, g["dns"], t, res))
+                n_eval += 1
+                dist["spellings"] += 1
+                dist["len_sum"] += len(t)
+                if any(ord(c) > 0xFFFF for c in t):
+                    dist["non_bmp"] += 1
+                if "‎" in t or "‏" in t:
+                    dist["with_marks"] += 1
+                if t.lstrip(" _\t\n‎‏").startswith(":"):
+                    dist["lead_colon"] += 1
+                if "   " in t.replace("_", " ").strip():
+                    dist["space_runs_ge3"] += 1
+                if c12_ref.canon(site, t, g["dns"]) is not None:
+                    dist["judged_by_site_reference"] += 1
+                if res[0] == "EXC":
+                    dist["exc"] += 1
+                elif res[0] == 0:
+                    dist["main_ns"] += 1
+                else:
+                    dist["found_ns"] += 1
+                key = (lang, g["dns"], t)
+                if c12_gen.nontrivial(t):
+                    digests.add(hashlib.blake2b(repr(key).encode("utf8", "replace"), digest_size=8).hexdigest())
+                expect = g["expect"] if lang == g["lang"] else None
+                probs, extra = oracle(h, site, lang, g["dns"], t, res, expect)
+                for e in extra:
+                    evals.append(e)
+                    dist["reeval"] += 1
+                if probs and len(hits) < 40:
+                    kind, detail = probs[0]
+                    hits.append({"kind": kind, "detail": detail, "kinds": sorted({p[0] for p in probs}), "lang": lang, "dns": g["dns"],
+                                 "title": t, "group": g["kind"], "expect": expect, "history": [list(e) for e in world.events[:nev]],
+                                 "inst": k})
+            if len(samples) < 4 and g["kind"] in ("ns", "plain") and any(not c.isascii() for c in g["spellings"][0]):
+                samples.append({"site": lang, "defaultns": g["dns"], "spellings": g["spellings"][:3], "result": results[0]})
+    dist["handlers_created"] = len(world.events)
+    dist["handlers_by_pickle"] = sum(1 for e in world.events if e[1] == "pickle")
     # ---- correspondence with the extracted model
     lines = "".join("S|%s|%d|%s\n" % (cps(lang), dns, cps(t)) for lang, dns, t, _r in evals)
     p = subprocess.run([exe], input=lines, capture_output=True, text=True)
@@ -168,15 +240,170 @@ def run(seed, shard, ngroups, exe, corpus):
                     dis.append("...")
                     break
     return {"evaluations": n_eval, "tie_cases": len(evals), "digests": sorted(digests), "hits": hits, "disagreements": dis,
-            "dist": dist, "samples": samples, "groups": len(groups)}
+            "dist": dist, "samples": samples, "groups": len(groups), "site_order": site_order(seed, shard, langs)}
+
+
+# ---------------------------------------------------------------------------------------- replay / minimise
+def judge(c):
+    """rebuild the history of handlers in THIS process and apply the oracle to the one evaluation"""
+    sites = ref_sites()
+    world = World()
+    history = c.get("history") or [[c["lang"], "new", None]]
+    world.rebuild(history)
+    k = c.get("inst", len(world.insts) - 1)
+    h = world.insts[k][1]
+    res = real_split(h, c["title"], c["dns"])
+    probs, _ = oracle(h, sites[c["lang"]], c["lang"], c["dns"], c["title"], res, c.get("expect"))
+    return res, probs, (h, sites[c["lang"]])
+
+
+def in_child(fn):
+    """run fn() in a forked child (fresh module state as of now: no handler exists yet in the parent)"""
+    r, w = os.pipe()
+    pid = os.fork()
+    if pid == 0:
+        try:
+            os.close(r)
+            out = json.dumps(fn())
+            os.write(w, out.encode("utf8"))
+        finally:
+            os._exit(0)
+    os.close(w)
+    buf = b""
+    while True:
+        chunk = os.read(r, 65536)
+        if not chunk:
+            break
+        buf += chunk
+    os.close(r)
+    os.waitpid(pid, 0)
+    return json.loads(buf.decode("utf8")) if buf else None
+
+
+def closure(history, keep):
+    """sub-history containing the events `keep` and the pickle sources they need; returns (events, index map)"""
+    need = set()
+    todo = list(keep)
+    while todo:
+        i = todo.pop()
+        if i in need:
+            continue
+        need.add(i)
+        if history[i][2] is not None:
+            todo.append(history[i][2])
+    idx = sorted(need)
+    remap = {old: new for new, old in enumerate(idx)}
+    return [[history[i][0], history[i][1], None if history[i][2] is None else remap[history[i][2]]] for i in idx], remap
+
+
+def shrink_title(c, kinds):
+    """greedy deletion of characters (and default namespace 0) while the oracle still reports one of `kinds`;
+    runs inside one process whose handlers are those of c["history"]"""
+    sites = ref_sites()
+    world = World()
+    world.rebuild(c["history"])
+    h = world.insts[c["inst"]][1]
+    site = sites[c["lang"]]
+
+    def bad(t, dns):
+        res = real_split(h, t, dns)
+        probs, _ = oracle(h, site, c["lang"], dns, t, res, None)
+        return [p for p in probs if p[0] in kinds]
+
+    t, dns = c["title"], c["dns"]
+    if not bad(t, dns):
+        return None
+    if dns != 0 and bad(t, 0):
+        dns = 0
+    changed = True
+    while changed:
+        changed = False
+        n = len(t)
+        size = max(1, n // 2)
+        while size >= 1:
+            i = 0
+            while i + size <= len(t):
+                cand = t[:i] + t[i + size:]
+                if cand and bad(cand, dns):
+                    t = cand
+                    changed = True
+                else:
+                    i += 1
+            size //= 2
+    # plainer characters
+    for i, ch in enumerate(t):
+        for simple in ("x", " "):
+            if ch not in ":_ " and not (ch.isascii() and ch.isalnum()) or (ch == "_" and simple == " "):
+                cand = t[:i] + simple + t[i + 1:]
+                if cand != t and bad(cand, dns):
+                    t = cand
+                    break
+    probs = bad(t, dns)
+    return {"title": t, "dns": dns, "kind": probs[0][0], "detail": probs[0][1]}
+
+
+def minimise(c):
+    full = c.get("history") or [[c["lang"], "new", None]]
+    k = c.get("inst", len(full) - 1)
+    base = dict(c)
+
+    def attempt(events, inst):
+        d = dict(base, history=events, inst=inst)
+        r = in_child(lambda: [list(p) for p in judge(d)[1]])
+        return r
+
+    first = attempt(full, k)
+    if not first:
+        return {"reproduced": False}
+    kinds = {p[0] for p in first}
+    chosen, chosen_k = full, k
+    ev, remap = closure(full, [k])
+    if attempt(ev, remap[k]):
+        chosen, chosen_k = ev, remap[k]
+    else:
+        for j in range(len(full)):
+            if j == k:
+                continue
+            ev, remap = closure(full, [j, k])
+            if len(ev) < len(chosen) and attempt(ev, remap[k]):
+                chosen, chosen_k = ev, remap[k]
+                break
+    # a handler made by another route (deep copy, get_nshandler_for_lang, pickle): try the plain constructor
+    for i in range(len(chosen)):
+        if chosen[i][1] != "new":
+            cand = [list(e) for e in chosen]
+            cand[i] = [cand[i][0], "new", None]
+            if attempt(cand, chosen_k):
+                chosen = cand
+    # drop every event that is not needed any more
+    j = 0
+    while j < len(chosen):
+        if j != chosen_k and not any(e[2] == j for e in chosen):
+            ev, remap = closure(chosen, [x for x in range(len(chosen)) if x != j])
+            if attempt(ev, remap[chosen_k]):
+                chosen, chosen_k = ev, remap[chosen_k]
+                continue
+        j += 1
+    intrinsic = kinds - {"spelling"}
+    out = dict(base, history=chosen, inst=chosen_k)
+    if intrinsic:
+        d = dict(base, history=chosen, inst=chosen_k)
+        s = in_child(lambda: shrink_title(d, intrinsic))
+        if s:
+            out.update(title=s["title"], dns=s["dns"], expect=None)
+    final = in_child(lambda: [list(p) for p in judge(out)[1]])
+    if not final:          # never hand out something that does not fail
+        out = dict(base, history=full, inst=k)
+        final = first
+    out["reproduced"] = True
+    out["problems"] = final
+    out["sites_in_history"] = [e[0] for e in out["history"]]
+    return out
 
 
 def replay():
-    handlers, _sites = load()
     c = json.load(sys.stdin)
-    h = handlers[c["lang"]]
-    res = real_split(h, c["title"], c["dns"])
-    probs, _ = oracle(h, c["lang"], c["dns"], c["title"], res, c.get("expect"))
+    res, probs, _ = judge(c)
     print(json.dumps({"result": res, "problems": [list(p) for p in probs]}))
 
 
@@ -186,3 +413,5 @@ if __name__ == "__main__":
         sys.stdout.write(json.dumps(out) + "\n")
     elif sys.argv[1] == "replay":
         replay()
+    elif sys.argv[1] == "minimise":
+        print(json.dumps(minimise(json.load(sys.stdin))))
